@@ -92,6 +92,11 @@ func boundaryScenario(p *load.Program, fn *ssa.Function, pair [2]string, two, co
 			return absint.NewVar(fmt.Sprintf("LINE%d", i), strT)
 		}
 		in.Hooks.Invoke = func(in *absint.Interp, recv absint.Val, m *types.Func, args []absint.Val, site ssa.Instruction) (absint.Val, bool) {
+			if m.Name() == "Parse" && len(args) == 1 {
+				processed[reads] = append(processed[reads], absint.Key(args[0]))
+				sig := m.Type().(*types.Signature)
+				return &absint.Tuple{E: []absint.Val{absint.Const{T: sig.Results().At(0).Type()}, absint.Const{T: sig.Results().At(1).Type()}}}, true
+			}
 			if m.Name() != "read" {
 				return nil, false
 			}
